@@ -166,6 +166,23 @@ var actions = map[string]func() string{
 		e, err2 := bip39.DecodeWords(w)
 		return fmt.Sprintf("%v %v %x %v", w, err, e, err2)
 	},
+	"xkey": func() string {
+		// 111-character strings: base58 decoding of more than 64 digits
+		pub := ecc.GetPublicKeyCompressed(key)
+		xp := bip32.SerializePublic(pub, chain, det("fp", 4), 3, 7, 76067358)
+		k, c, f, d, i, v, err := bip32.Deserialize(xp)
+		xs := bip32.SerializePrivate(key2, chain, det("fp", 4), 2, 9, 76066276)
+		k2, _, _, _, _, _, err2 := bip32.Deserialize(xs)
+		return fmt.Sprintf("%s %x %x %x %d %d %d %v %x %v", xp, k, c, f, d, i, v, err, k2, err2)
+	},
+	"rpcstorm": func() string {
+		for i := 0; i < 40; i++ {
+			if _, err := conn.Request("getblockcount"); err != nil {
+				return "err " + err.Error()
+			}
+		}
+		return "ok"
+	},
 	"rpc": func() string {
 		r1, e1 := conn.Request("getblockcount")
 		r2, e2 := conn.Request("getbestblockhash")
